@@ -288,6 +288,13 @@ fn names(t: &mut Tape, obs: &mut Obs) -> R {
             }
             (None, true) => {
                 ensure!(!reg.has_name(text), format!("C17:names:{}:{}:value={:#x}", reg.ty, what, v), "{} of {}({:#x}) is {:?}, which is the name of a different constant", what, reg.ty, v, text);
+                // a name this harness does not list is tolerated (a new constant), except where the registry fixes the value from the
+                // name: TLS 1.3 draft NN is 0x7f00 | NN (RFC 8446 4.2.1)
+                if reg.ty == "TlsVersion" {
+                    if let Some(nn) = text.strip_prefix("Tls13Draft").and_then(|d| d.parse::<u32>().ok()) {
+                        ensure!(v == 0x7f00 | nn, format!("C17:names:{}:{}:value={:#x}", reg.ty, what, v), "{} of TlsVersion({:#x}) is {:?}; TLS 1.3 draft {} has the code point {:#06x}", what, v, text, nn, 0x7f00 | nn);
+                    }
+                }
                 if text.contains(&dec) {
                     obs.class("numeric-fallback");
                 } else {
